@@ -25,7 +25,7 @@ tname=$(echo "$hdr" | sed -n 's/.*-run \([A-Za-z0-9_]*\).*/\1/p')
 [ -z "$pkgdir" ] || [ -z "$tname" ] && { echo "cannot parse demo header: $hdr"; exit 2; }
 dmod=$(moddir "$pkgdir")
 drel=${pkgdir#$dmod}; drel=${drel#/}
-runcmd="go test ./$drel -run ^$tname\$ -count=1"
+runcmd="go test ./$drel -run $tname -count=1"
 pkgs=$(grep '^+++ b/' "$dir/patch.diff" | sed 's/^+++ b\///' | xargs -n1 dirname | sort -u)
 applies=no; builds=no; tests=no; demo_fails_with=no; demo_passes_without=no
 if git apply "$dir/patch.diff"; then applies=yes; fi
